@@ -56,6 +56,70 @@ static blk_info_t g_blocks[NB];
 static sqfs_file_t g_file;
 static sqfs_u64 g_fsize;		/* ghost: current file size */
 
+static size_t g_used0, g_fs, g_count;	/* shape of the history at entry */
+static sqfs_u64 g_total, g_own_end;	/* sum of the own sizes; own start + sum */
+
+#define SZ(h) (((h) >> 32) & 0xFFFFFFu)
+#define END(i) (g_blocks[i].offset + SZ(g_blocks[i].hash))
+
+/* A cut: the fact is first an obligation, then a lemma for what follows.
+ * Sound (a violated cut is reported by its assert); it only hands the SAT
+ * solver the induction steps of an addition chain that it cannot find by
+ * itself in reasonable time (measured: 55 s .. > 100 s per obligation
+ * without, < 1 s with). Every cut below is a statement about the harness's
+ * own well-formed history, or restates an obligation. */
+#define VERIF_CUT(c, name) do { VERIF_ASSERT(c, name); VERIF_ASSUME(c); } while (0)
+
+/* position of the earlier block that starts at `loc`, g_fs if none */
+static size_t block_at(sqfs_u64 loc)
+{
+	size_t i, m = g_fs;
+
+	for (i = 0; i < NB; ++i) {
+		if (i < g_fs && g_blocks[i].offset == loc)
+			m = i;
+	}
+	return m;
+}
+
+/* Lemma about a well-formed history (no repository code involved): if the
+ * run of g_count entries at m carries the same (size|checksum) words as the
+ * file's own blocks, then offset[m] + sum of the own sizes <= END(m+count-1).
+ * Returns offset[m] + sum. */
+static sqfs_u64 run_extent_lemma(size_t m)
+{
+	sqfs_u64 acc = 0;
+	size_t mm, j;
+
+	/* case split on the position so that every step has concrete indices */
+	for (mm = 0; mm < NB; ++mm) {
+		if (mm != m)
+			continue;
+		acc = g_blocks[mm].offset;
+		for (j = 0; j < NB; ++j) {
+			if (j < g_count && mm + j < NB) {
+				acc += SZ(g_blocks[g_fs + j].hash);
+				VERIF_CUT(acc <= END(mm + j),
+					  "C08.blk.lemma.run_extent");
+			}
+		}
+	}
+	return acc;
+}
+
+static bool run_hashes_match(size_t m)
+{
+	bool all = true;
+	size_t j;
+
+	for (j = 0; j < NB; ++j) {
+		if (j < g_count &&
+		    g_blocks[m + j].hash != g_blocks[g_fs + j].hash)
+			all = false;
+	}
+	return all;
+}
+
 static unsigned g_cmp_calls;
 static sqfs_u64 g_cmp_a, g_cmp_b, g_cmp_sz, g_cmp_first_b;
 static int g_cmp_ret;
@@ -72,8 +136,26 @@ int check_file_range_equal(sqfs_file_t *file, void *scratch, size_t scratch_sz,
 		     scratch_sz == SCRATCH_SIZE, "C08.blk.compare_pre");
 	VERIF_ASSERT(VERIF_W_OK(scratch, scratch_sz), "C08.blk.compare_pre");
 	VERIF_ASSERT(!HASH_ONLY, "C08.blk.compare_pre");
-	VERIF_ASSERT(size <= g_fsize && loc_a <= g_fsize - size &&
-		     loc_b <= g_fsize - size, "C08.blk.compare_pre");
+	/* what the comparer contract (cmp_sound.c) requires */
+	VERIF_ASSERT(loc_a <= UINT64_MAX - size && loc_b <= UINT64_MAX - size,
+		     "C08.blk.compare_pre");
+	/* the candidate is an earlier run with the same (size|checksum) words;
+	 * both ranges lie inside the file */
+	{
+		size_t m = block_at(loc_b);
+		sqfs_u64 end_a, end_b;
+
+		VERIF_CUT(m < g_fs && run_hashes_match(m),
+			  "C08.blk.candidate_is_hash_match");
+		VERIF_CUT(g_count > 0 && loc_a == g_blocks[g_fs].offset &&
+			  size == g_total, "C08.blk.candidate_is_hash_match");
+		end_a = g_own_end;	/* own start + total, <= file size (harness) */
+		end_b = run_extent_lemma(m);
+		VERIF_ASSERT(end_a == loc_a + size && end_b == loc_b + size,
+			     "C08.blk.candidate_is_hash_match");
+		VERIF_ASSERT(end_a <= g_fsize && end_b <= g_fsize,
+			     "C08.blk.compare_in_file");
+	}
 	/* after an "equal" (or an error) nothing else is tried */
 	VERIF_ASSERT(g_cmp_calls == 0 || g_cmp_ret == 1,
 		     "C08.blk.identical_share");
@@ -141,8 +223,6 @@ int stub_unreachable_write_at(sqfs_file_t *file, sqfs_u64 offset,
 	return 0;
 }
 
-#define SZ(h) (((h) >> 32) & 0xFFFFFFu)
-
 void harness(void)
 {
 	size_t used, fs, count, i, j, k, first_cand;
@@ -197,6 +277,9 @@ void harness(void)
 
 	/* specification values, computed independently of the code */
 	count = used - fs;
+	g_used0 = used;
+	g_fs = fs;
+	g_count = count;
 	own = count > 0 ? g_blocks[fs].offset : 0;
 	total = 0;
 	for (j = 0; j < NB; ++j) {
@@ -215,6 +298,13 @@ void harness(void)
 			if (all)
 				first_cand = i;
 		}
+	}
+	g_total = total;
+	g_own_end = 0;
+	if (count > 0) {
+		g_own_end = run_extent_lemma(fs);
+		VERIF_CUT(g_own_end == own + total && g_own_end <= g_fsize,
+			  "C08.blk.lemma.run_extent");
 	}
 	k = verif_nd_size("witness_k");
 	VERIF_ASSUME(k < NB);
@@ -285,14 +375,31 @@ void harness(void)
 #endif
 		if (g_trunc_calls > 0) {
 			size_t nu = g_w.wr.blocks.used;
+			size_t m = block_at(out);
+			sqfs_u64 end;
 
-			VERIF_ASSERT(nu >= fs && nu >= 1 && nu <= used,
+			/* the returned location starts an earlier, hash-matching
+			 * run; that run and every earlier file's blocks stay in
+			 * the history; the file is cut exactly at the end of the
+			 * last retained block */
+			VERIF_CUT(m < fs && run_hashes_match(m),
+				  "C08.blk.truncate_safe");
+			VERIF_CUT(nu >= fs && nu <= used && nu >= m + count,
+				  "C08.blk.truncate_safe");
+			VERIF_CUT(g_trunc_sz == END(nu - 1), "C08.blk.truncate_safe");
+			/* hence the shared bytes survive ... */
+			end = run_extent_lemma(m);
+			for (i = 0; i + 1 < NB; ++i) {
+				if (i >= m + count - 1 && i + 1 < nu)
+					VERIF_CUT(END(m + count - 1) <= END(i + 1),
+						  "C08.blk.lemma.ends_monotone");
+			}
+			VERIF_ASSERT(end == out + total && end <= g_trunc_sz,
 				     "C08.blk.truncate_safe");
-			VERIF_ASSERT(out <= g_trunc_sz && total <= g_trunc_sz - out,
-				     "C08.blk.truncate_safe");
+			/* ... and so does every retained block (witness k) */
 			if (k < nu)
-				VERIF_ASSERT(g_blocks[k].offset + SZ(g_blocks[k].hash)
-					     <= g_trunc_sz, "C08.blk.truncate_safe");
+				VERIF_ASSERT(END(k) <= g_trunc_sz,
+					     "C08.blk.truncate_safe");
 			VERIF_ASSERT(g_trunc_sz <= fsize0, "C08.blk.truncate_safe");
 		}
 	}
